@@ -148,7 +148,7 @@ func reachSet(p *Prog, fn *ssa.Function, instr ssa.Instruction) (map[int64]bool,
 				}
 			}
 			return cval{}, false
-		}, Stop: func(in ssa.Instruction) bool { return in == instr }, Budget: 400000}
+		}, Stop: func(in ssa.Instruction) bool { return in == instr }, Budget: 3000000}
 		var args []cval
 		for range fn.Params {
 			args = append(args, cval{nonNil: true})
